@@ -98,7 +98,7 @@ class Sys(e1.TimedSys):
     def actions(self):
         acts = []
         for src, name, ev, mc in self.menu:
-            if ev == "r" and (src, mc) not in self.model.sent_before:
+            if ev[0] == "r" and (src, mc) not in self.model.sent_before:
                 continue  # reboot evidence needs an earlier message to compare with (C07)
             acts.append(("msg", src, name, ev, mc))
         reg = self.model.registered
@@ -121,7 +121,8 @@ class Sys(e1.TimedSys):
         if act[0] == "msg":
             _, src, name, ev, mc = act
             k = (src, mc)
-            if ev == "r":
+            uflag = not ev.endswith("u")  # SD unicast flag clear: the entries are ignored, the sender is still tracked
+            if ev[0] == "r":
                 sess = 1
                 self._absorb()
                 self.step_reboots.append(
@@ -134,7 +135,7 @@ class Sys(e1.TimedSys):
                 sess = self.wire.get(k, self.cfg.get("session_base", 0)) + 1
             self.wire[k] = sess
             # a peer whose session counter has wrapped sends with the reboot flag clear until it reboots
-            flag = True if ev == "r" else self.flags.get(k, not self.cfg.get("wrapped", False))
+            flag = True if ev[0] == "r" else self.flags.get(k, not self.cfg.get("wrapped", False))
             self.flags[k] = flag
             m.sent_before.add(k)
             entries = []
@@ -142,6 +143,8 @@ class Sys(e1.TimedSys):
                 s = svc(self.sid, sname)
                 entries.append(("offer", s[0], s[1], s[2], ttl, s[3], (), ()))
                 key = (src, sname)
+                if not uflag:
+                    continue
                 if ttl == 0:
                     m.live.pop(key, None)
                     m.arrived.pop(key, None)
@@ -149,7 +152,7 @@ class Sys(e1.TimedSys):
                     m.live[key] = None if ttl == INF else now + ttl
                     regd = {ln for ln, on in m.registered.items() if on and FILTER[ln](sname)}
                     m.arrived.setdefault(key, set()).update(regd)
-            data = refcodec.sd_message(sess, entries, reboot=flag, unicast=True)
+            data = refcodec.sd_message(sess, entries, reboot=flag, unicast=uflag)
             self.prot.datagram_received(data, SRC[src], bool(mc))
         elif act[0] == "watch":
             m.registered["L2"] = True
@@ -282,6 +285,8 @@ def configs(ctx):
         [("S1", "offX2+offY1", "r", mc)] + [("S2", n, e, mc) for n in ("offX2", "stopX") for e in ("n", "r")]
     out.append(("full-menu", dict(sid=sid, advs=base, menu=menu, controls=("L2", "L3", "connlost"),
                                   deviations=ctx.pick(0, 1), fine=1), ctx.pick(4, 6)))
+    uf = [("S1", n, e, mc) for n in ("offX2", "stopX", "offY1") for e in ("n", "r", "nu", "ru")]
+    out.append(("S1-unicast-flag-clear", dict(sid=sid, advs=(None, "next"), menu=uf, controls=(), deviations=0, fine=0), CLOSURE))
     alias = [(c, n, "n", mc) for c in ("S1", "S5", "S3", "S4") for n in ("offX2", "stopX")] + \
         [("S3", "offX2", "r", mc), ("S5", "stopX", "r", mc)]
     out.append(("aliased-source-addresses", dict(sid=sid, advs=(None, "next"), menu=alias, controls=(), deviations=0, fine=0),
